@@ -261,6 +261,19 @@ def handle (s : St) (j : Json) : St × Json :=
         match listOf? str? ns, optOf? jInt? lo, optOf? jInt? hi with
         | some ns, some lo, some hi => readOut s (sReadColumns f (colsByName f.cols (if ns.length = 1 then .valueError else .keyError) ns) lo hi) rowsJ
         | _, _, _ => (s, bad "C16: read_columns_name")
+      | Json.str "read_columns_grouped_idx", [ix, lo, hi] =>
+        match ints? ix, optOf? jInt? lo, optOf? jInt? hi with
+        | some ix, some lo, some hi => readOut s (sReadColumnsGrouped f (colsByIndex f.cols.length ix) lo hi) rowsJ
+        | _, _, _ => (s, bad "C16: read_columns_grouped_idx")
+      | Json.str "read_columns_grouped_name", [ns, lo, hi] =>
+        match listOf? str? ns, optOf? jInt? lo, optOf? jInt? hi with
+        | some ns, some lo, some hi => readOut s (sReadColumnsGrouped f (colsByName f.cols .valueError ns) lo hi) rowsJ
+        | _, _, _ => (s, bad "C16: read_columns_grouped_name")
+      | Json.str "getitem_name", [Json.str n] => readOut s (sGetField f n) rowJ
+      | Json.str "getitem_slice", [lo, hi] =>
+        match optOf? jInt? lo, optOf? jInt? hi with
+        | some lo, some hi => readOut s (sGetSlice f lo hi) rowsJ
+        | _, _ => (s, bad "C16: getitem_slice")
       | Json.str "read_cell_pos", [p] =>
         match ints? p with
         | some p => readOut s (sReadCellPos f p) valJ
